@@ -36,7 +36,7 @@ RULE = (
     "msdparser.parse_msd and with the class's own parser. (b) SM chart, complete: all assignments of {initial, "
     "non-empty, ''} to the six fields reachable within the depth, every get/set by attribute and upper-case key and "
     "every refusal (new key, del by key/attribute, pop, popitem, update) from each, built through from_msd, from_str, "
-    "blank()+attributes and a parsed SM simfile. (c) RuleBasedStateMachine histories on one long-lived object per "
+    "blank()+attributes and a parsed SM simfile (quick tier: two of these four paths per state, alternating). (c) RuleBasedStateMachine histories on one long-lived object per "
     "kind over all known properties, aliases, decoys and unrelated keys with the same interpreter and the invariant "
     "after every step. Counted: every (state, operation, construction path) triple of (a)/(b) once (distinct by "
     "construction); a history is non-trivial when >= 3 of its operations changed the mapping; distinct = distinct "
@@ -73,11 +73,16 @@ def need(c, msg):
 # building and observing real objects (public API only)
 
 
-def _classes():
-    from simfile.sm import SMChart, SMSimfile
-    from simfile.ssc import SSCChart, SSCSimfile
+_CLS = []
 
-    return SMSimfile, SSCSimfile, SSCChart, SMChart
+
+def _classes():
+    if not _CLS:
+        from simfile.sm import SMChart, SMSimfile
+        from simfile.ssc import SSCChart, SSCSimfile
+
+        _CLS.extend((SMSimfile, SSCSimfile, SSCChart, SMChart))
+    return _CLS
 
 
 def _text(kind, items):
@@ -413,14 +418,17 @@ def _targets(kinds):
                 yield kind, attr
 
 
-def _state_iter(kinds, part, vals, others, depth):
+def _state_iter(kinds, part, vals, others, depth, all_vias=True):
     def it(shard, nshards):
         idx = 0
         for kind, attr in _targets(kinds):
-            for state, d in _reachable(kind, attr, tuple(vals), tuple(others), depth):
+            for si, (state, d) in enumerate(_reachable(kind, attr, tuple(vals), tuple(others), depth)):
                 if idx % nshards == shard:
+                    vias = list(VIAS[kind])
+                    if not all_vias and len(vias) > 2:  # quick tier: two of the four SM chart construction paths per state
+                        vias = vias[si % 2::2]
                     yield {"part": part, "obj": kind, "attr": attr, "state": [list(p) for p in state], "found_at_depth": d,
-                           "vals": list(vals), "others": list(others), "vias": list(VIAS[kind])}
+                           "vals": list(vals), "others": list(others), "vias": vias}
                 idx += 1
 
     return it
@@ -630,9 +638,9 @@ def parts(tier):
     depth = 5 if q else 6
     out = [
         {"name": "one-step", "kind": "enum", "iter": _state_iter(("sm", "ssc", "sscchart"), "one-step", vals, others, depth), "exhaustive": True},
-        {"name": "smchart-step", "kind": "enum", "iter": _state_iter(("smchart",), "smchart-step", ["v", ""], ["FOO"], depth), "exhaustive": True},
+        {"name": "smchart-step", "kind": "enum", "iter": _state_iter(("smchart",), "smchart-step", ["v", ""], ["FOO"], depth, all_vias=not q), "exhaustive": True},
     ]
     for kind in KINDS:
         out.append({"name": "machine-" + kind, "kind": "machine", "factory": (lambda k=kind: machine_factory(k)),
-                    "examples": 320 if q else 16 * 400, "steps": 50 if q else 80})
+                    "examples": 256 if q else 16 * 250, "steps": 50 if q else 80})
     return out
